@@ -129,6 +129,8 @@ let rop = function
   | App [Id "OPathAppend"; p; v] -> OPathAppend (rzl p, rz v)
   | App [Id "OAliasAttr"; a; p] -> OAliasAttr (rz a, rzl p)
   | App [Id "OReplaceSeries"; a; l] -> OReplaceSeries (rz a, rzl l)
+  | App [Id "OSetAttrNested"; a; l] -> OSetAttrNested (rz a, rlist rzl l)
+  | App [Id "OSetAttrSet"; a; l] -> OSetAttrSet (rz a, rzl l)
   | x -> bad "op" x
 let rops = function
   | Lst l -> List.map rop l
@@ -145,7 +147,9 @@ let revent = function
   | App [Id "ELinkerInit"; c; subs; nme] -> ELinkerInit (rnat c, rlist (rpair rz rnat) subs, rz nme)
   | App [Id "EReindex"; i; sp; n; ps; fs] -> EReindex (rnat i, rsrc sp, rnat n, rlist (rpair rz rz) ps, rlist (rpair rz rz) fs)
   | x -> bad "event" x
+let rroute = function Id "RCopy" -> RCopy | Id "RCopyCopy" -> RCopyCopy | Id "RDeepCopy" -> RDeepCopy | x -> bad "route" x
 let rhevent = function
+  | App [Id "HCopyRoute"; rt; i] -> HCopyRoute (rroute rt, rnat i)
   | App [Id "HOps"; i; os] -> HOps (rnat i, rops os)
   | App [Id "HEv"; e] -> HEv (revent e)
   | App [Id "HCopySeries"; i; j; a; b] -> HCopySeries (rnat i, rnat j, rz a, rz b)
